@@ -177,7 +177,7 @@ def gen_server_script(rng):
             cb = None
             if isinstance(to, list) and to[0] == 'sid' and \
                     rng.random() < 0.5:
-                cb = rng.choice([True, 'co'])
+                cb = rng.choice([True, 'co', 'raise', 'raise_co'])
             skip = None
             if rng.random() < 0.25:
                 skip = sid() if rng.random() < 0.6 else \
